@@ -6,10 +6,8 @@ use vstd::string::*;
 verus! {
 
 // (the Default impls are lifted here, so the shared prelude's external_body Default stubs are not included)
-#[derive(PartialEq, Eq, Clone, Copy, Structural)]
-pub enum TagClass { Universal = 0, Application = 1, Context = 2, Private = 3 }
-#[derive(PartialEq, Eq, Clone, Copy, Structural)]
-pub enum TagStructure { Primitive = 0, Constructed = 1 }
+//@item file=lber/src/common.rs kind=enum name=TagStructure derive="PartialEq, Eq, Clone, Copy, Structural"
+//@item file=lber/src/common.rs kind=enum name=TagClass derive="PartialEq, Eq, Clone, Copy, Structural"
 pub struct StructureTag { pub class: TagClass, pub id: u64, pub payload: PL }
 pub enum PL { P(Vec<u8>), C(Vec<StructureTag>) }
 pub struct Integer { pub id: u64, pub class: TagClass, pub inner: i64 }
@@ -27,12 +25,8 @@ pub enum Tag {
 //@include contracts/shared/tree_spec.rs
 
 pub mod structure { pub use super::StructureTag; pub use super::PL; }
-pub mod universal {
-    // lber/src/universal.rs (X.680 8.4 universal class tag assignments)
-    pub enum Types { Eoc = 0, Boolean = 1, Integer = 2, BitString = 3, OctetString = 4, Null = 5, ObjectIdentifier = 6,
-        ObjectDescriptor = 7, External = 8, Real = 9, Enumerated = 10, EmbeddedPdv = 11, Utf8String = 12, RelativeOid = 13,
-        Sequence = 16, Set = 17 }
-}
+//@include contracts/shared/lift_types_enum.rs
+pub mod universal { pub use super::Types; }
 // contract of i_e_into_structure: Kani leaf proof over all i64 (K-lber C07.int_minimal_twos_complement_all_i64)
 #[verifier::external_body]
 fn i_e_into_structure(id: u64, class: TagClass, inner: i64) -> (r: StructureTag)
